@@ -1,8 +1,8 @@
 (* Props/C11.v — the property theorems for C11 (streamed evaluation equals in-memory evaluation for every chunking).
    Only statements, `exact <lemma>` and Print Assumptions live here.  In every theorem [cs] is an arbitrary list of
    chunks — any number of chunks of any sizes — and the in-memory value is the Spec function of [concat cs]. *)
-From Coq Require Import ZArith List Bool Lia Sorting.Sorted.
-From BNP Require Import Base.Prims Model.C11 Proofs.C11 Proofs.C11_rechunk Proofs.C11_groupby Proofs.C11_graph Proofs.C11_pipeline.
+From Coq Require Import String ZArith List Bool Lia Sorting.Sorted.
+From BNP Require Import Base.Prims Model.C11 Proofs.C11 Proofs.C11_rechunk Proofs.C11_groupby Proofs.C11_graph Proofs.C11_pipeline Gen.C11 Bridge.C11.
 Import ListNotations.
 Open Scope Z_scope.
 
@@ -142,6 +142,68 @@ Theorem C11_mean_axis0_partial : forall a b, length a = length b ->
   red_mean (GSN a) (GSN b) = red_mean_fixed (GSN a) (GSN b).
 Proof. exact red_mean_equal_lengths. Qed.
 Print Assumptions C11_mean_axis0_partial.
+
+(* Source tie: the loop conditions, slice bounds, counter updates, component-wise additions, change-point comparison,
+   shortcut test, group bounds and buffer-index tests regenerated on this run from /repo (Gen/C11.v, written by
+   translate/gen_c11.py from streams/chunk_entries.py, io/parser.py, streams/reductions.py, computation_graph.py and
+   streams/groupby_func.py) are the ones the model — and the theorems above — are about.  The generator also checks
+   the statement kinds (the emission loop of _chunk_entries must be a `while` inside the `for`). *)
+Theorem C11_source_tie :
+  (forall bs n : nat, gen_ce_loop_cond (Z.of_nat bs) (Z.of_nat n) = m_ce_cond bs n)
+  /\
+  (forall buf c : list Z, gen_ce_size_in (len buf) (len c) = len (buf ++ c))
+  /\
+  (forall (n : nat) (total : list Z), slice 0 (gen_ce_emit_stop (Z.of_nat n)) total = firstn n total)
+  /\
+  (forall (n : nat) (total : list Z), skipn (Z.to_nat (gen_ce_carry_start (Z.of_nat n))) total = skipn n total)
+  /\
+  (forall (n : nat) (total : list Z), gen_ce_size_after (len total) (Z.of_nat n) = len (skipn n total))
+  /\
+  (forall buf : list Z, gen_ce_tail_cond (len buf) = match buf with [] => false | _ => true end)
+  /\
+  (forall k r, gen_cl_loop_cond k r = m_cl_cond k r)
+  /\
+  (forall r n, gen_cl_take_stop r = r /\ gen_cl_rest_start r = r /\ gen_cl_reset n = n)
+  /\
+  (forall r k, gen_cl_after r k = m_cl_after r k)
+  /\
+  (forall c : list Z, gen_sum_and_n (sumZ c) (len c) = sum_and_n c)
+  /\
+  (forall a b : nat, gen_br_cond (Z.of_nat a) (Z.of_nat b) = m_br_cond a b)
+  /\
+  (forall a b, gen_br_then_stop a b = b /\ gen_br_else_stop a b = a)
+  /\
+  (forall x y l, add_prefix (x :: l) [y] = gen_br_add x y :: l)
+  /\
+  (forall r f, [gen_hr_total r f] = vadd [r] [f])
+  /\
+  (forall a0 a1 b0 b1, gen_mean_reduction a0 a1 b0 b1 = pair_add (a0, a1) (b0, b1))
+  /\
+  (forall x y, red_hist (GL [x]) (GL [y]) = GL [gen_add_hist_count x y])
+  /\
+  (forall x y, gen_sum_reduction = "operator.add"%string /\ red_add (GZ x) (GZ y) = GZ (x + y))
+  /\
+  (forall idx i : nat, gen_sn_assert (Z.of_nat idx - 1) (Z.of_nat i) && gen_sn_advance (Z.of_nat idx - 1) (Z.of_nat i) = m_node_pull idx i /\ gen_sn_assert (Z.of_nat idx - 1) (Z.of_nat i) && negb (gen_sn_advance (Z.of_nat idx - 1) (Z.of_nat i)) = m_node_cached idx i /\ gen_sn_next (Z.of_nat idx - 1) = Z.of_nat (S idx) - 1)
+  /\
+  (forall idx i : nat, gen_cn_assert (Z.of_nat idx - 1) (Z.of_nat i) && gen_cn_cached (Z.of_nat idx - 1) (Z.of_nat i) = m_node_cached idx i /\ gen_cn_assert (Z.of_nat idx - 1) (Z.of_nat i) && negb (gen_cn_cached (Z.of_nat idx - 1) (Z.of_nat i)) = m_node_pull idx i /\ gen_cn_next (Z.of_nat idx - 1) = Z.of_nat (S idx) - 1)
+  /\
+  (forall prev next, [gen_gc_changed_encoded next prev] = neq_adjacent [prev; next] /\ [gen_gc_changed_string next prev] = neq_adjacent [prev; next] /\ [gen_gc_changed_plain next prev] = neq_adjacent [prev; next])
+  /\
+  (forall i, [gen_gc_index i] = map (Z.add 1) [i])
+  /\
+  (forall first last, gen_gb_fast_test last first = m_gb_fast_test first last)
+  /\
+  (forall data : list Z, skipn (Z.to_nat gen_gb_fast_start) data = skipn 0 data)
+  /\
+  (forall ch n, gen_gb_insert_pos = 0 /\ (gen_gb_insert_val :: ch) ++ [gen_gb_last_bound n] = (0 :: ch) ++ [n])
+  /\
+  (forall (keys : list Z) (data : list Z) s e, (nthZ keys (gen_gb_key_index s e), slice (gen_gb_slice_lo s e) (gen_gb_slice_hi s e) data) = (nthZ keys s, slice s e data))
+  /\
+  (gen_join_key_field = 0 /\ gen_join_payload_field = 1).
+Proof.
+  exact (conj b_ce_loop_cond (conj b_ce_size_in (conj b_ce_emit_stop (conj b_ce_carry_start (conj b_ce_size_after (conj b_ce_tail_cond (conj b_cl_loop_cond (conj b_cl_bounds (conj b_cl_after (conj b_sum_and_n (conj b_br_cond (conj b_br_stops (conj b_br_add (conj b_hr_total (conj b_mean_reduction (conj b_add_hist_count (conj b_sum_reduction (conj b_stream_node (conj b_computation_node (conj b_gc_changed (conj b_gc_index (conj b_gb_fast_test (conj b_gb_fast_start (conj b_gb_bounds (conj b_gb_group b_join_fields))))))))))))))))))))))))).
+Qed.
+Print Assumptions C11_source_tie.
 
 (* ---------- non-vacuity ---------- *)
 (* a 7-entry data set with three groups, cut inside the first and the second group and into single entries *)
